@@ -37,7 +37,8 @@ Accepted subset (anything else raises Reject):
   expressions: int/float/bool/None constants, locals, + - * / // %, unary -,
       one comparison (numbers, None-able numbers under ==, tuples
       lexicographically as CPython does), and/or/not with short circuit,
-      conditional expressions, tuples, CALENDAR.X, obj._slot, obj.__slots__,
+      conditional expressions (also of tuples), tuples (one-element ones
+      included), tuple + tuple, CALENDAR.X, obj._slot, obj.__slots__,
       getattr(obj, <static str>[, None]), isinstance (decided statically from
       the entry-point types; a tuple of classes = or), any/all(e for a in
       <static list of strings>) (unrolled, short circuit), abs, int, divmod,
@@ -483,8 +484,9 @@ class ClassUnit:
                 t, c, self.wrap(ab, "Ok " + a.text), self.wrap(bb, "Ok " + b.text)))
             return cb, Val(t, ty)
         if isinstance(n, ast.Tuple):
-            if len(n.elts) < 2:
-                raise Reject("tuple of fewer than two elements")
+            if len(n.elts) < 1:
+                raise Reject("empty tuple")
+            # a one-element tuple (x,) is represented by x itself, typed T(type of x)
             binds, parts = [], []
             for e in n.elts:
                 b, v = self.expr(e, env, fx)
@@ -577,6 +579,11 @@ class ClassUnit:
         ab, a = self.expr(n.left, env, fx)
         bb, b = self.expr(n.right, env, fx)
         binds = ab + bb
+        if is_tuple(a.ty) and is_tuple(b.ty) and isinstance(n.op, ast.Add):
+            # tuple concatenation: the lengths are static, the components are pure terms
+            parts = tuple_parts(a) + tuple_parts(b)
+            return binds, Val("(" + ", ".join(p.text for p in parts) + ")",
+                              T(*[p.ty for p in parts]), parts=parts)
         if a.ty == OBJ or b.ty == OBJ:
             # operator dispatch on Duration objects (receiver class exactly Duration)
             if a.ty == OBJ and b.ty == OBJ and isinstance(n.op, ast.Add):
